@@ -84,14 +84,22 @@ where
 
         // algebraically equivalent to |u| < x_tab[i+1]/x_tab[i] (or u < x_tab[i+1]/x_tab[i])
         if test_x < x_tab[i + 1] {
+            #[cfg(rand_distr_verif)]
+            crate::verif_hooks::probe(if symmetric { 1 } else { 5 });
             return x;
         }
         if i == 0 {
+            #[cfg(rand_distr_verif)]
+            crate::verif_hooks::probe(if symmetric { 2 } else { 6 });
             return zero_case(rng, u);
         }
         // algebraically equivalent to f1 + DRanU()*(f0 - f1) < 1
         if f_tab[i + 1] + (f_tab[i] - f_tab[i + 1]) * rng.random::<f64>() < pdf(x) {
+            #[cfg(rand_distr_verif)]
+            crate::verif_hooks::probe(if symmetric { 3 } else { 7 });
             return x;
         }
+        #[cfg(rand_distr_verif)]
+        crate::verif_hooks::probe(if symmetric { 4 } else { 8 });
     }
 }
